@@ -37,6 +37,7 @@ Print Assumptions C05_write_permission.
 
 Theorem C05_update_option_kept : forall c, c_update (json_ext c) = c_update c.
 Proof. exact json_ext_update. Qed.
+Print Assumptions C05_update_option_kept.
 
 (* on CI no history of API operations writes anything *)
 Theorem C05_ci_readonly : forall ops s,
